@@ -9,7 +9,10 @@ case "$out" in *"tests-with-change=pass demo-with-change=FAIL demo-without=pass"
 mkdir -p seeded/$s && cp /tmp/seed/$s/patch.diff /tmp/seed/$s/demo_test.go seeded/$s/ && cp /tmp/seed/$s/notes.md seeded/$s/agent-notes.md 2>/dev/null
 det=""
 for p in $(echo $props | tr ',' ' '); do
-  if bin/check $p --no-evidence --mutant seeded/$s/patch.diff 2>&1 | grep -q "^VIOLATION property=$p"; then echo "$s: $p DETECTED"; det="$det \"$p\","; else echo "$s: $p MISSED"; fi
+  out=$(bin/check $p --no-evidence --mutant seeded/$s/patch.diff 2>&1)
+  if echo "$out" | grep -q "^VIOLATION property=$p"; then echo "$s: $p DETECTED"; det="$det \"$p\",";
+  elif echo "$out" | grep -q "^TOOL-ERROR"; then echo "$s: $p TOOL-ERROR (machinery failure, not a verdict)"; echo "$out" | grep -A3 "^TOOL-ERROR" | head -5;
+  else echo "$s: $p MISSED"; fi
 done
 det=${det%,}
 cat > seeded/$s/meta.json <<M
